@@ -376,7 +376,9 @@ pub fn run(prop: &str, cases: &[String]) -> RunOut {
 pub struct World { pub keys: Vec<[u8; 32]>, pub prog: [u8; 32] }
 impl World {
     pub fn new(rng: &mut Rng) -> Self { World { keys: (0..6).map(|_| rng.key()).collect(), prog: rng.key() } }
-    pub fn key(&self, rng: &mut Rng) -> [u8; 32] { if rng.chance(5, 6) { *rng.pick(&self.keys) } else { rng.key() } }
+    /// mostly one of the six world keys; now and then a fresh one, or an address with a meaning (the all-zero System Program id,
+    /// all-ones): a config is 35 arbitrary bytes, and the all-zero one (kind 0, zero key, flags off) is "the System Program, read-only"
+    pub fn key(&self, rng: &mut Rng) -> [u8; 32] { match rng.below(24) { 0..=19 => *rng.pick(&self.keys), 20 => [0u8; 32], 21 => [0xffu8; 32], _ => rng.key() } }
 }
 
 fn cfg_bytes(disc: u8, cfg: &[u8; 32], s: u8, w: u8) -> Vec<u8> { let mut v = vec![disc]; v.extend(cfg); v.push(s); v.push(w); v }
@@ -512,6 +514,13 @@ pub fn generate_c05(tier: &str, rng: &mut Rng) -> Vec<String> {
             }
         }
     }
+    // the fixed-address config of every flag combination for the all-zero and the all-ones key (incl. the all-zero 35 bytes)
+    for key in [[0u8; 32], [0xffu8; 32]] { for s in 0..2u8 { for w in 0..2u8 {
+        v.push(format!("resolve {} - {} -", hex(&cfg_bytes(0, &key, s, w)), hex(&[3u8; 32])));
+        v.push(format!("ctor key {} {s} {w}", hex(&key)));
+        v.push(format!("ctor meta {} {s} {w}", hex(&key)));
+        v.push(format!("ctor info {} {s} {w}", hex(&key)));
+    } } }
     // boundary PDA cases: 16 two-byte seeds, 33-byte slices
     let world = World::new(rng);
     for n_seeds in [15usize, 16] {
